@@ -35,12 +35,19 @@ fn cfg_from(v: &Value) -> Cfg {
     c
 }
 
+/// crash images: (images per boundary, write stride); (0, _) = off
+static CRASH: std::sync::Mutex<(u64, u64, u64)> = std::sync::Mutex::new((0, 1, 0));
+
 fn run_history(tracer: &Tracer, cfg: &Cfg, ops: &[Value], storage: bool, tag: &Value) {
     tracer.reset_canon();
-    let mut w = World::new(tracer, cfg);
-    w.dir.set_quiet(!storage);
     tracer.emit(json!({"ev":"reset","cfg":cfg.to_json(),"tag":tag}));
+    let mut w = World::new_quiet(tracer, cfg, !storage);
     install_sink(tracer, w.regs.clone(), None);
+    let (nimg, stride, cseed) = *CRASH.lock().unwrap();
+    if nimg > 0 {
+        w.dir.st.lock().unwrap().snap_write_stride = stride;
+        w.dir.record_snaps(true);
+    }
     w.exec(&json!({"op":"new_writer"}));
     for op in ops {
         w.exec(op);
@@ -51,7 +58,26 @@ fn run_history(tracer: &Tracer, cfg: &Cfg, ops: &[Value], storage: bool, tag: &V
     }
     w.exec(&json!({"op":"observe"}));
     tantivy::verif::set_sink(None);
-    tracer.emit(json!({"ev":"end","listing":w.dir.listing(),"locks":w.dir.lock_files()}));
+    if nimg > 0 {
+        let snaps = w.dir.take_snaps();
+        w.dir.record_snaps(false);
+        let mut rng = StdRng::seed_from_u64(cseed);
+        for (k, fs) in snaps.iter() {
+            let visible_managed: Vec<String> = fs
+                .atom
+                .get(std::path::Path::new(".managed.json"))
+                .and_then(|a| a.versions.last())
+                .and_then(|b| serde_json::from_slice::<Vec<String>>(b).ok())
+                .unwrap_or_default();
+            for i in 0..nimg {
+                let mode = if i < 2 { i as u8 } else { 2 };
+                let (img, choice) = vh::simdir::SimDir::image(fs, mode, &mut rng);
+                let rec = vh::core::recover_image(img, &visible_managed, 9999);
+                tracer.emit(json!({"ev":"crash_image","k":k,"mode":mode,"choice":choice,"rec":rec}));
+            }
+        }
+    }
+    tracer.emit(json!({"ev":"end","listing":w.dir.listing(),"locks":w.dir.lock_files(),"managed":w.managed()}));
 }
 
 fn gen_history(rng: &mut StdRng, nops: usize, delete_all: bool, avoid_f0: bool, terms: &[&str]) -> Vec<Value> {
@@ -147,6 +173,7 @@ fn main() {
     let out = a.get("out", "/dev/stdout");
     let tracer = Tracer::to_file(&out);
     let storage = !a.flag("no-storage");
+    *CRASH.lock().unwrap() = (a.num("crash-images", 0), a.num("crash-write-stride", 1), a.num("seed", 1));
     match mode.as_str() {
         "random" => {
             let seed = a.num("seed", 1);
